@@ -46,7 +46,8 @@ MANIFEST = dict(
           "and aggregated fields are null-free (the statement is "
           "silent on null groups); `top/rare limit=N`, multi-key sort and timechart/transaction are not modelled. The operational "
           "model has one upstream chain: parallel chains (SetupQueryParallelism, merger, fetchFromAnyStream) are run in-package "
-          "with two synthetic streams for every TLC-enumerated assignment of rows to streams and end to end with GOMAXPROCS 2/4, "
+          "with two synthetic streams for every TLC-enumerated assignment of rows to streams, with four chains of which two get no "
+          "batch or one empty batch (more CPUs than blocks), and end to end with GOMAXPROCS 2/4, "
           "against the same oracle (TLC checks SplitInvariant: the oracle is independent of the split); the merge schedule "
           "itself is not forced. Pairs/triples are a VERIF_SEED-selected sample in the quick tier."),
     design_ref="DESIGN.md 4/C06",
